@@ -265,8 +265,14 @@ func c18(c *Ctx) {
 		elems := core.VariadicElems(el)
 		okEl := len(elems) == 1 && core.Derives(elems[0], func(v ssa.Value) bool { return core.IsLoadOfField(v, "bucket", "replacements") }, core.DeriveOpts{})
 		r.Check(okEl, "R3.promotion", name+" promoted-is-replacement", p.Pos(appendE.Pos()), "the appended node is read from the replacement list", "the promoted node is not taken from the replacement list")
-		wp3 := core.MustPassBefore(appendE, func(in ssa.Instruction) bool { return in == ssa.Instruction(shrinkR) })
-		r.Check(wp3 == nil, "R3.promotion", name+" taken-out", p.Pos(shrinkR.Pos()), "the promoted node is deleted from replacements before it is appended", "a promoted node can stay in the replacement list: "+p.PathString(wp3))
+		// ... on the same path, in either order (both happen under the table mutex with nothing
+		// in between that could observe the intermediate state)
+		isShrink := func(in ssa.Instruction) bool { return in == ssa.Instruction(shrinkR) }
+		wp3 := core.MustPassBefore(appendE, isShrink)
+		if wp3 != nil && core.MustPassAfter(appendE, isShrink) == nil {
+			wp3 = nil
+		}
+		r.Check(wp3 == nil, "R3.promotion", name+" taken-out", p.Pos(shrinkR.Pos()), "the promoted node is deleted from replacements on every path that appends it", "a promoted node can stay in the replacement list: "+p.PathString(wp3))
 	}
 
 	// ---------- R4: record update
